@@ -40,6 +40,7 @@ def bad_statements(rng):
         ("not of a boolean", f"let {v}: bool = !(1u8 == 1u8) && 3u8;"),
         ("shift amount of a wrong type", f"let {v}: u8 = 1u8 << 1u16;"),
         ("negation of unsigned", f"let {v}: u8 = -(1u8);"),
+        ("tuple pattern with a wrong number of fields", f"let ({v}, w_{v}, x_{v}) = (1u8, 2u8);"),
     ]
 
 
@@ -72,6 +73,20 @@ def program_edits(rng, src):
         if idx:
             i = idx[0] + len(m.group(1)) + 3
             out.append(("unknown field in struct literal", src[:i] + "zz_nofield: 1u8, " + src[i:]))
+    # a struct literal that gives a field twice (wrong number of fields), no field missing
+    m = re.search(r"(S\d) \{ (f\d): ", src)
+    if m and "struct " + m.group(1) in src:
+        idx = [x.start() for x in re.finditer(re.escape(m.group(1)) + r" \{ f", src) if not src[max(0, x.start() - 7):x.start()].endswith("struct ")]
+        if idx:
+            i = idx[0] + len(m.group(1)) + 3
+            fm = re.match(r"(f\d): ", src[i:])
+            if fm:
+                # duplicate the first field initialiser with a literal of a scalar type if its type is scalar; else reuse the name with `true`
+                out.append(("field given twice in struct literal", src[:i] + fm.group(1) + ": " + "{ " + src[i + len(fm.group(0)):].split(",")[0].split("}")[0] + " }, " + src[i:]))
+    # a struct definition that declares a field name twice
+    m = re.search(r"struct (S\d) \{ (f\d): ([^,}]+)", src)
+    if m:
+        out.append(("field declared twice in struct definition", src.replace(m.group(0), m.group(0) + ", " + m.group(2) + ": " + m.group(3).strip(), 1)))
     # return type mismatch: append a statement of another type at the very end of main
     mm = re.search(r"pub fn main\([^)]*\) -> ([^{]+)\{", src)
     if mm:
